@@ -8,6 +8,7 @@ package classifier
 // argument aliases the corpus document's own rune array.
 
 import (
+	"errors"
 	"fmt"
 	"os"
 	"sync"
@@ -99,6 +100,22 @@ func TestVerifV2Conc(t *testing.T) {
 					cc := c
 					if (g+r)%2 == 1 {
 						cc = ct
+					}
+					// every fourth call is preceded by a stream that fails (after 0, 1, 700 or 3000 bytes): an abandoned
+					// call must leave nothing behind that a concurrent or later call could pick up
+					if (g+k+r)%4 == 0 {
+						boom := errors.New("verif: reader fault")
+						at := []int{0, 1, 700, 3000}[(g+k)%4]
+						if at >= len(inputs[i]) {
+							at = len(inputs[i]) - 1
+						}
+						rd := &v2ChunkReader{data: inputs[i], chunks: []int{512, 7, 1024}, failAt: at, failErr: boom}
+						res, err := cc.c.MatchFrom(rd)
+						if err != boom || len(res.Matches) != 0 {
+							emu.Lock()
+							vt.emit(map[string]interface{}{"ev": "fault", "why": fmt.Sprintf("MatchFrom on a failing reader returned %d matches, err %v", len(res.Matches), err)})
+							emu.Unlock()
+						}
 					}
 					res := vt.matchQuiet(cc, inputs[i], api)
 					emu.Lock()
